@@ -477,21 +477,22 @@ def scan_check(tier, seed):
     sites = scan_repo(REPO)
     problems = []
     seen = {(s["file"], s["func"], s["kind"], s["expr"]) for s in sites}
+    kc = lambda k: "iter" if k in ("for", "comp") else k     # a loop rewritten as a comprehension (or back) is the same site
     vacated, vacated_fn = {}, {}
     for (f, fn, k, e) in REVIEWED:
         if (f, fn, k, e) not in seen:
-            vacated.setdefault((f, k, e), []).append(fn)          # same expression, now in another function (moved)
-            vacated_fn.setdefault((f, fn, k), []).append(e)       # same function and kind, other spelling (renamed local)
+            vacated.setdefault((f, kc(k), e), []).append(fn)          # same expression, now in another function (moved) or as loop/comprehension
+            vacated_fn.setdefault((f, fn, kc(k)), []).append(e)       # same function and kind, other spelling (renamed local)
     moved = []
     for s in sites:
         key = (s["file"], s["func"], s["kind"], s["expr"])
         if key not in REVIEWED:
-            if vacated.get((s["file"], s["kind"], s["expr"])):
-                moved.append({"site": list(key), "reviewed_as": vacated[(s["file"], s["kind"], s["expr"])]})
+            if vacated.get((s["file"], kc(s["kind"]), s["expr"])):
+                moved.append({"site": list(key), "reviewed_as": vacated[(s["file"], kc(s["kind"]), s["expr"])]})
                 continue
-            if vacated_fn.get((s["file"], s["func"], s["kind"])):
+            if vacated_fn.get((s["file"], s["func"], kc(s["kind"]))):
                 # one reviewed entry answers for one respelled site
-                moved.append({"site": list(key), "reviewed_as_expr": vacated_fn[(s["file"], s["func"], s["kind"])].pop(0)})
+                moved.append({"site": list(key), "reviewed_as_expr": vacated_fn[(s["file"], s["func"], kc(s["kind"]))].pop(0)})
                 continue
             problems.append(Problem("correspondence", "scan", s,
                                     {"broken": "C20: correspondence scan - a set iteration / join of a set / draw at a site that is not "
